@@ -17,11 +17,12 @@ open EvalM Value
 
 /-- The context of arguments of an invocation: every formal parameter bound to the argument at
 its position coerced to the parameter's type (`parameter_type.coerced(argument)`, null when the
-argument cannot be coerced — C16), in the order of the parameters; surplus arguments are ignored. -/
+argument cannot be coerced — C16), in the order of the parameters. -/
 def argCtx (ps : List (String × FType)) (args : List Value) (cx : Ctx) : Ctx :=
   (ps.zip args).foldl (fun cx pa => Ctx.set cx pa.1.1 (Value.coerced pa.1.2 pa.2)) cx
 
-/-- `eval_function_positional` rejects too few arguments and nothing else. -/
+/-- The loop of `eval_function_positional` rejects too few arguments (too many are rejected before
+the loop: `invokePositional`). -/
 theorem bindPositional_eq (ps : List (String × FType)) (args : List Value) (cx : Ctx) :
     bindPositional ps args cx = if ps.length ≤ args.length then some (argCtx ps args cx) else none := by
   induction ps generalizing args cx with
@@ -125,17 +126,33 @@ theorem callFunction_ok (env : Env) (cx : Ctx) (body : Ast) (rt : FType) (s : Sc
     callFunction env cx body rt s = .ok (Value.coerced rt r, s) := by
   simp only [callFunction, bind_def, bracket_ok cx _ s r h, pure_def]
 
-/-- named invocation = positional invocation with the arguments in declaration order -/
+/-- named invocation = positional invocation with the arguments in declaration order, when every
+argument name is the name of a formal parameter -/
 theorem invokeNamed_eq_positional (env : Env) (ps : List (String × FType)) (body : Ast) (rt : FType)
     (m : List (String × Value × Nat)) (args : List Value)
-    (h : ps.mapM (fun p => namedGet m p.1) = some args) :
+    (h : ps.mapM (fun p => namedGet m p.1) = some args) (hu : unknownNamed ps m = false) :
     invokeNamed env (.fn ps body rt) (.namedParams m) = invokePositional env (.fn ps body rt) args := by
-  simp only [invokeNamed, invokePositional, bindNamed_eq, h]
+  have hl := mapM_namedGet_length ps m args h
+  have : ¬ args.length > ps.length := by omega
+  simp only [invokeNamed, invokePositional, bindNamed_eq, h, hu, this, Bool.false_eq_true, if_false]
 
 theorem invokeNamed_missing (env : Env) (ps : List (String × FType)) (body : Ast) (rt : FType)
     (m : List (String × Value × Nat)) (h : ps.mapM (fun p => namedGet m p.1) = none) (s : Scope) :
     invokeNamed env (.fn ps body rt) (.namedParams m) s = .ok (.null, s) := by
-  simp only [invokeNamed, bindNamed_eq, h, pure_def]
+  simp only [invokeNamed, bindNamed_eq, h]
+  split <;> rfl
+
+/-- an argument whose name is not the name of a formal parameter makes the invocation null -/
+theorem invokeNamed_unknown (env : Env) (ps : List (String × FType)) (body : Ast) (rt : FType)
+    (m : List (String × Value × Nat)) (h : unknownNamed ps m = true) (s : Scope) :
+    invokeNamed env (.fn ps body rt) (.namedParams m) s = .ok (.null, s) := by
+  simp only [invokeNamed, h, if_true, pure_def]
+
+/-- more arguments than formal parameters make the invocation null -/
+theorem invokePositional_surplus (env : Env) (ps : List (String × FType)) (body : Ast) (rt : FType)
+    (args : List Value) (h : args.length > ps.length) (s : Scope) :
+    invokePositional env (.fn ps body rt) args s = .ok (.null, s) := by
+  simp only [invokePositional, h, if_true, pure_def]
 
 /-! ## context literals -/
 
@@ -189,16 +206,25 @@ theorem entryKey_eval (env : Env) (k : EntryKey) (v : Value) (t : Scope) :
     (do let l ← evalStep env k.ast; pure (contextEntryV l v) : EvalM Value) t = .ok (.ctxEntry k.key v, t) := by
   cases k <;> simp [EntryKey.ast, EntryKey.key, evalStep, bind_def, pure_def, contextEntryV]
 
+theorem contains_set (c : Ctx) (k : String) (v : Value) (k' : String) :
+    Ctx.contains (Ctx.set c k v) k' = (decide (k = k') || Ctx.contains c k') := by
+  simp only [Ctx.contains, Ctx.get_set]
+  by_cases h : k = k'
+  · simp [h]
+  · simp [h]
+
 /-- The loop of `build_context` in a scope whose top is the context pushed for the literal: every
-entry is evaluated with the earlier entries (of this literal) on top of the scope. -/
+entry is evaluated with the earlier entries (of this literal) on top of the scope; the keys are
+distinct (and not yet in the accumulator). -/
 theorem evalContextEntries_spec (env : Env) (s : Scope) :
     ∀ (ents : List CEntry) (acc top : Ctx),
       (∀ pre e post, ents = pre ++ e :: post →
         evalStep env e.2.1 (s ++ [ctxFold pre top]) = .ok (e.2.2, s ++ [ctxFold pre top])) →
+      (ents.map (fun e => e.1.key)).Nodup → (∀ e ∈ ents, Ctx.contains acc e.1.key = false) →
       evalContextEntries env (ents.map CEntry.ast) acc (s ++ [top]) =
-        .ok (ctxFold ents acc, s ++ [ctxFold ents top])
-  | [], acc, top, _ => rfl
-  | e :: es, acc, top, h => by
+        .ok (some (ctxFold ents acc), s ++ [ctxFold ents top])
+  | [], acc, top, _, _, _ => rfl
+  | e :: es, acc, top, h, hnd, hacc => by
     have h0 := h [] e es rfl
     simp only [ctxFold, List.foldl_nil] at h0
     have hk : evalStep env e.1.ast (s ++ [top]) = .ok
@@ -207,12 +233,84 @@ theorem evalContextEntries_spec (env : Env) (s : Scope) :
     have hv : evalStep env (CEntry.ast e) (s ++ [top]) = .ok (.ctxEntry e.1.key e.2.2, s ++ [top]) := by
       simp only [CEntry.ast, evalStep, bind_def, hk, h0, pure_def]
       cases e.1 <;> simp [contextEntryV, EntryKey.key]
-    simp only [List.map_cons, evalContextEntries, bind_def, hv, setEntry, setEntry_append]
+    have hfresh : Ctx.contains acc e.1.key = false := hacc e List.mem_cons_self
+    simp only [List.map_cons, evalContextEntries, bind_def, hv, hfresh, Bool.false_eq_true, if_false, setEntry,
+      setEntry_append]
+    simp only [List.map_cons, List.nodup_cons] at hnd
     have ih := evalContextEntries_spec env s es (Ctx.set acc e.1.key e.2.2) (Ctx.set top e.1.key e.2.2)
       (by
         intro pre e' post hes
         have := h (e :: pre) e' post (by rw [hes]; rfl)
         simpa only [ctxFold, List.foldl_cons] using this)
+      hnd.2
+      (by
+        intro e' he'
+        rw [contains_set]
+        have h1 : e.1.key ≠ e'.1.key := by
+          intro heq
+          exact hnd.1 (by rw [heq]; exact List.mem_map_of_mem (f := fun e => e.1.key) he')
+        simp [h1, hacc e' (List.mem_cons_of_mem _ he')])
+    simpa only [ctxFold, List.foldl_cons] using ih
+
+/-- A key written twice: the loop of `build_context` ends with `none` at the second occurrence
+(`pre` has distinct keys, the key of `e` is among them). -/
+theorem evalContextEntries_dup (env : Env) (s : Scope) :
+    ∀ (pre : List CEntry) (e : CEntry) (post : List Ast) (acc top : Ctx),
+      (∀ p1 x p2, pre ++ [e] = p1 ++ x :: p2 →
+        evalStep env x.2.1 (s ++ [ctxFold p1 top]) = .ok (x.2.2, s ++ [ctxFold p1 top])) →
+      (pre.map (fun e => e.1.key)).Nodup → (∀ x ∈ pre, Ctx.contains acc x.1.key = false) →
+      (Ctx.contains acc e.1.key = true ∨ e.1.key ∈ pre.map (fun e => e.1.key)) →
+      evalContextEntries env (pre.map CEntry.ast ++ CEntry.ast e :: post) acc (s ++ [top]) =
+        .ok (none, s ++ [ctxFold pre top])
+  | [], e, post, acc, top, h, _, _, hdup => by
+    have h0 := h [] e [] rfl
+    simp only [ctxFold, List.foldl_nil] at h0
+    have hk : evalStep env e.1.ast (s ++ [top]) = .ok
+        ((match e.1 with | .name k => Value.ctxEntryKey k | .text t => Value.str t), s ++ [top]) := by
+      cases e.1 <;> simp [EntryKey.ast, evalStep, pure_def]
+    have hv : evalStep env (CEntry.ast e) (s ++ [top]) = .ok (.ctxEntry e.1.key e.2.2, s ++ [top]) := by
+      simp only [CEntry.ast, evalStep, bind_def, hk, h0, pure_def]
+      cases e.1 <;> simp [contextEntryV, EntryKey.key]
+    have hc : Ctx.contains acc e.1.key = true := by
+      rcases hdup with hc | hm
+      · exact hc
+      · simp at hm
+    simp only [List.map_nil, List.nil_append, evalContextEntries, bind_def, hv, hc, if_true, pure_def, ctxFold,
+      List.foldl_nil]
+  | p :: pre, e, post, acc, top, h, hnd, hacc, hdup => by
+    have h0 := h [] p (pre ++ [e]) rfl
+    simp only [ctxFold, List.foldl_nil] at h0
+    have hk : evalStep env p.1.ast (s ++ [top]) = .ok
+        ((match p.1 with | .name k => Value.ctxEntryKey k | .text t => Value.str t), s ++ [top]) := by
+      cases p.1 <;> simp [EntryKey.ast, evalStep, pure_def]
+    have hv : evalStep env (CEntry.ast p) (s ++ [top]) = .ok (.ctxEntry p.1.key p.2.2, s ++ [top]) := by
+      simp only [CEntry.ast, evalStep, bind_def, hk, h0, pure_def]
+      cases p.1 <;> simp [contextEntryV, EntryKey.key]
+    have hfresh : Ctx.contains acc p.1.key = false := hacc p List.mem_cons_self
+    simp only [List.map_cons, List.cons_append, evalContextEntries, bind_def, hv, hfresh, Bool.false_eq_true,
+      if_false, setEntry, setEntry_append]
+    simp only [List.map_cons, List.nodup_cons] at hnd
+    have ih := evalContextEntries_dup env s pre e post (Ctx.set acc p.1.key p.2.2) (Ctx.set top p.1.key p.2.2)
+      (by
+        intro p1 x p2 hes
+        have := h (p :: p1) x p2 (by rw [List.cons_append, hes]; rfl)
+        simpa only [ctxFold, List.foldl_cons] using this)
+      hnd.2
+      (by
+        intro x hx
+        rw [contains_set]
+        have h1 : p.1.key ≠ x.1.key := by
+          intro heq
+          exact hnd.1 (by rw [heq]; exact List.mem_map_of_mem (f := fun e => e.1.key) hx)
+        simp [h1, hacc x (List.mem_cons_of_mem _ hx)])
+      (by
+        rw [contains_set]
+        rcases hdup with hc | hm
+        · left; simp [hc]
+        · simp only [List.map_cons, List.mem_cons] at hm
+          rcases hm with heq | hm
+          · left; simp [heq]
+          · right; exact hm)
     simpa only [ctxFold, List.foldl_cons] using ih
 
 end Dmn.Eval
